@@ -280,6 +280,8 @@ def run(chk):
     chk.ob("C13-R5", "series._temporal.Inlay._cumulate_backward[recursion]", ok and len(sets) == 1,
            "x[t+shift] = cum_func(x[t], change[t])", m.loc(bw))
     chk.guard(rule_r6, chk)
+    from .. import unused as _unused
+    chk.guard(_unused.apply, chk, "C13-R91")
     from .. import args as _args
     chk.guard(_args.apply, chk, "C13-R90", {'dates', 'series'}, 1)
     chk.assumptions = [
